@@ -46,6 +46,9 @@ var endpoints = []string{promapi.APIPathQuery, promapi.APIPathQueryRange, promap
 type Op struct {
 	Kind    int   `json:"kind"`
 	ThinkNs int64 `json:"think_ns,omitempty"`
+	// Q >= 0: the question comes from a small shared vocabulary, so later operations may be
+	// answered from the cache; -1: a question nobody else asks
+	Q int `json:"q"`
 }
 
 type Scenario struct {
@@ -60,6 +63,8 @@ type Scenario struct {
 	Rest []string   `json:"rest"`
 	// SplitBodies: healthy answers arrive in two parts (see simprom.Fault.SplitBody)
 	SplitBodies bool `json:"split_bodies,omitempty"`
+	// PublicURI: the prometheus block sets publicURI (one value for every upstream of the group)
+	PublicURI bool `json:"public_uri,omitempty"`
 }
 
 // the property's nine modes first, then the extra ones
@@ -113,12 +118,17 @@ func draw(rt *rapid.T) Scenario {
 	sc.Upstreams = rapid.IntRange(1, 3).Draw(rt, "upstreams")
 	sc.Required = rapid.Bool().Draw(rt, "required")
 	sc.TimeoutS = []int{1, 5, 30}[rapid.IntRange(0, 2).Draw(rt, "timeout")]
+	sc.PublicURI = rapid.IntRange(0, 2).Draw(rt, "publicuri") == 0
+	repeat := rapid.IntRange(0, 2).Draw(rt, "repeat") == 0
 	ncallers := rapid.IntRange(1, detsim.Scale(5, 8)).Draw(rt, "callers")
 	for c := 0; c < ncallers; c++ {
 		nops := rapid.IntRange(1, 4).Draw(rt, "nops")
 		ops := []Op{}
 		for i := 0; i < nops; i++ {
-			op := Op{Kind: []int{kQuery, kQuery, kRange, kConfig, kFlags, kMetadata}[rapid.IntRange(0, 5).Draw(rt, "kind")]}
+			op := Op{Kind: []int{kQuery, kQuery, kRange, kConfig, kFlags, kMetadata}[rapid.IntRange(0, 5).Draw(rt, "kind")], Q: -1}
+			if repeat && (op.Kind == kQuery || op.Kind == kMetadata) {
+				op.Q = rapid.IntRange(0, 1).Draw(rt, "q")
+			}
 			if rapid.IntRange(0, 2).Draw(rt, "think") == 0 {
 				op.ThinkNs = rapid.Int64Range(1, int64(2*time.Second)).Draw(rt, "thinkNs")
 			}
@@ -219,6 +229,9 @@ func run(t *testing.T, sc Scenario, record bool) *detsim.Outcome {
 		if len(uris) > 1 {
 			fmt.Fprintf(&hcl, "  failover = [%s]\n", `"`+strings.Join(uris[1:], `", "`)+`"`)
 		}
+		if sc.PublicURI {
+			fmt.Fprintf(&hcl, "  publicURI = \"http://public.example.com\"\n")
+		}
 		fmt.Fprintf(&hcl, "  timeout = \"%ds\"\n  required = %v\n  concurrency = 4\n  rateLimit = 1000000000\n}\n", sc.TimeoutS, sc.Required)
 		cfgPath := filepath.Join(dir, ".pint.hcl")
 		if err := os.WriteFile(cfgPath, []byte(hcl.String()), 0o644); err != nil {
@@ -305,7 +318,11 @@ func run(t *testing.T, sc Scenario, record bool) *detsim.Outcome {
 					r.Call = s.Seq()
 					switch op.Kind {
 					case kQuery:
-						qr, err := fg.Query(ctx, fmt.Sprintf("q_%d", id))
+						expr := fmt.Sprintf("q_%d", id)
+						if op.Q >= 0 {
+							expr = fmt.Sprintf("shared_q_%d", op.Q)
+						}
+						qr, err := fg.Query(ctx, expr)
 						r.Err = err
 						if err == nil {
 							r.Answers, _ = simprom.DecodeQuery(qr)
@@ -329,7 +346,11 @@ func run(t *testing.T, sc Scenario, record bool) *detsim.Outcome {
 							r.Answers = []simprom.Answer{simprom.DecodeFlags(fr)}
 						}
 					case kMetadata:
-						mr, err := fg.Metadata(ctx, fmt.Sprintf("m_%d", id))
+						metric := fmt.Sprintf("m_%d", id)
+						if op.Q >= 0 {
+							metric = fmt.Sprintf("shared_m_%d", op.Q)
+						}
+						mr, err := fg.Metadata(ctx, metric)
 						r.Err = err
 						if err == nil {
 							a, derr := simprom.DecodeMetadata(mr)
@@ -545,7 +566,7 @@ func judge(sc Scenario, attempts []attempt, results []result, logs [][]simprom.R
 			if op, ok := serialOp[sk{a0.Up, a0.Serial}]; !ok {
 				setViol("unattributable-result", fmt.Sprintf("%s returned serial %d of upstream %d which no server produced", who, a0.Serial, a0.Up))
 			} else if op != r.ID {
-				if r.Op.Kind == kConfig || r.Op.Kind == kFlags {
+				if r.Op.Kind == kConfig || r.Op.Kind == kFlags || r.Op.Q >= 0 {
 					cacheUp = a0.Up
 					out.Probes["cache_hit"]++
 				} else {
@@ -642,7 +663,7 @@ func judge(sc Scenario, attempts []attempt, results []result, logs [][]simprom.R
 				if fe.IsStrict() != sc.Required {
 					setViol("required-flag-lost", fmt.Sprintf("%s: IsStrict()=%v with required=%v", who, fe.IsStrict(), sc.Required))
 				}
-				if last >= 0 && fe.URI() != uri(last) && !errors.Is(r.Err, promapi.ErrUnsupported) {
+				if last >= 0 && fe.URI() != uri(last) && !errors.Is(r.Err, promapi.ErrUnsupported) && !sc.PublicURI {
 					setViol("error-from-wrong-upstream", fmt.Sprintf("%s: error attributed to %s, last upstream tried %s", who, fe.URI(), uri(last)))
 				}
 			}
@@ -716,7 +737,7 @@ func TestC15Sweep(t *testing.T) {
 				if (n-1)%shards != shard {
 					continue
 				}
-				sc := Scenario{Upstreams: ups, Required: code%2 == 0, TimeoutS: 1, Callers: [][]Op{{{Kind: kind}}}}
+				sc := Scenario{Upstreams: ups, Required: code%2 == 0, TimeoutS: 1, Callers: [][]Op{{{Kind: kind, Q: -1}}}}
 				c := code
 				assign := []string{}
 				for i := 0; i < ups; i++ {
